@@ -59,6 +59,14 @@ CHECKS.update({
                     "MonVersion.tla judges their answers; malformed strings are compared with the specification's parser.",
             "ref": "6/C18", "note": "grid {4..8}x{0,1,2,4,5,6}x{0,1,2}x{0,1} (thorough); gating inside newDcp itself needs a cluster (rig B)",
             "technique": "TLA+ transcription model-checked exhaustively (TLC) + table replay into the real methods + TLC re-check of their outputs"},
+    "C20": {"text": "AsyncOp.tla models caller, completion callback (statement by statement: Resolve, send on the result channel) and "
+                    "the context deadline as three parties with the code's channel capacities; TLC checks Truth (no invented success), "
+                    "NoBlock (the completion never blocks) and, under fairness, that every call returns and every started callback "
+                    "finishes; the unbuffered variant is refuted (vacuity control). Every order of the parties' steps is executed "
+                    "repeatedly on the real AsyncOp and judged by MonAsync.tla. Found F4 (GetVBucketSeqNos dropped the callback error) "
+                    "by reading the wrappers against the specification's per-wrapper table; repaired.",
+            "ref": "6/C20", "note": "binding covers couchbase/async_op.go; the 14 wrappers over real gocbcore agents (deadlines, cancel on silence) are a rig-B item",
+            "technique": "TLA+ model checking (TLC, safety + liveness) + exhaustive order replay on the real primitive + TLC trace monitor"},
     "C19": {"text": "HealthCheck.tla models run / performHealthCheck / Start / Stop at the granularity of the client's Ping call; TLC checks "
                     "exhaustively (two rounds, every pattern, Stop anywhere) that the process dies exactly on five consecutive failures of "
                     "a round, that Stop returns and that no ping follows it; all 2^5 round patterns, second rounds and Stop positions are "
